@@ -35,7 +35,9 @@ def opsTreemapCodec : Handler := fun st toks =>
   match toks with
   | ["tser", d] => do
     let (_, sl) ← t? d
-    pure (st, specMark (showBytes (Treemap.serialize sl.m)) (showBytes (Spec.encode64 sl.s)))
+    match Treemap.serializeM st.dbg sl.m with
+    | some bytes => pure (st, specMark (showBytes bytes) (showBytes (Spec.encode64 sl.s)))
+    | none => pure (st, specMark "panic" (showBytes (Spec.encode64 sl.s)))
   | ["tser_size", d] => do
     let (_, sl) ← t? d
     pure (st, specMark (toString (Treemap.serializedSize sl.m)) (toString (Spec.encode64 sl.s).length))
@@ -71,9 +73,12 @@ def opsTreemapCodec : Handler := fun st toks =>
     pure (finishTDeser st i chk bytes r)
   | ["tdeser_prefix", mode, d, s, k] => do
     let chk ← parseMode mode; let i ← parseTSlot 't' d; let (_, sl) ← t? s; let k ← parseU64 k
-    let bytes := (Treemap.serialize sl.m).take k
     let total := (Spec.encode64 sl.s).length
     let specOut := if k < total then "err" else "ok rest=0 eq=true"
+    match Treemap.serializeM st.dbg sl.m with
+    | none => pure (st, specMark "panic" specOut)
+    | some all =>
+    let bytes := all.take k
     match Treemap.deserialize chk st.dbg bytes with
     | .ok (m, rest) =>
       pure (st.setT i ⟨m, if k < total then Treemap.elems m else sl.s⟩,
@@ -87,12 +92,15 @@ def opsTreemapCodec : Handler := fun st toks =>
     let cyc ← parseSched sc
     let total := Spec.encode64 sl.s
     let w : SWriter := { accRev := [], room := k, zeroMode := zero, sched := expandSched cyc (total.length + 2) }
-    let r := Treemap.serializeInto sl.m w
     let show_ (ok : Bool) (bs : List Nat) := (if ok then "ok" else "err") ++ s!" n={bs.length} sh={hex64 (fnv bs)}"
-    pure (st, specMark (show_ r.1 r.2.bytes) (show_ (decide (total.length ≤ k)) (total.take k)))
+    match Treemap.serializeIntoM st.dbg sl.m w with
+    | some r => pure (st, specMark (show_ r.1 r.2.bytes) (show_ (decide (total.length ≤ k)) (total.take k)))
+    | none => pure (st, specMark "panic" (show_ (decide (total.length ≤ k)) (total.take k)))
   | ["tserde_events", d] => do
     let (_, sl) ← t? d
-    let evs := Serde.tserEvents sl.m
+    match Serde.tserEventsM st.dbg sl.m with
+    | none => pure (st, "panic")
+    | some evs =>
     let bs := evs.flatMap fun e => match e with
       | .bytes b => b
       | .other _ => []
@@ -100,19 +108,24 @@ def opsTreemapCodec : Handler := fun st toks =>
     -- SPEC: they are the reference encoding of the set
     let line (same : Bool) (bs : List Nat) :=
       s!"calls={",".intercalate (evs.map Serde.Event.method)} n={bs.length} sh={hex64 (fnv bs)} same={showBool same}"
-    pure (st, specMark (line (bs == Treemap.serialize sl.m) bs) (line true (Spec.encode64 sl.s)))
+    pure (st, specMark (line (some bs == Treemap.serializeM st.dbg sl.m) bs) (line true (Spec.encode64 sl.s)))
   | ["tserde_visit", kind, d, src] => do
     let i ← parseTSlot 't' d
     -- the byte string: literal `hex:…`, or `ser:tN` = the serialisation of slot `tN`
-    let (bytes, orig) ← (if src.startsWith "ser:" then
-        (t? (src.drop 4).toString).map fun (_, sl) => (Treemap.serialize sl.m, some sl.s)
-      else (parseHex src).map fun bs => (bs, none) : Option (List Nat × Option (List Nat)))
-    let inp ← (match kind with
-      | "bytes" => some (Serde.Input.bytes bytes)
-      | "borrowed" => some (Serde.Input.borrowedBytes bytes)
-      | "buf" => some (Serde.Input.byteBuf bytes)
-      | "seq" => some (Serde.Input.seq bytes)
-      | _ => none : Option Serde.Input)
+    let (bytes?, orig) ← (if src.startsWith "ser:" then
+        (t? (src.drop 4).toString).map fun (_, sl) => (Treemap.serializeM st.dbg sl.m, some sl.s)
+      else (parseHex src).map fun bs => (some bs, none) : Option (Option (List Nat) × Option (List Nat)))
+    -- (the delivery kind is parsed before the source is serialised, as in the harness)
+    let mkInp ← (match kind with
+      | "bytes" => some Serde.Input.bytes
+      | "borrowed" => some Serde.Input.borrowedBytes
+      | "buf" => some Serde.Input.byteBuf
+      | "seq" => some Serde.Input.seq
+      | _ => none : Option (List Nat → Serde.Input))
+    match bytes? with
+    | none => pure (st, "panic")       -- `serialize_into` of the source slot panicked
+    | some bytes =>
+    let inp := mkInp bytes
     -- SPEC: the serialisation of a value decodes to an equal value (`ok`, same set); a conformant literal
     -- stream decodes to its set
     let q : Option (List Nat) := match orig with
